@@ -8,30 +8,30 @@ checks = [
  ("C01", MC, "E1",
   "bounded-exhaustive enumeration of operand catalogue^2 x translations x type casts x 4 operations on the real code vs exact even-odd membership of margin-checked lattice points and slab-decomposition areas",
   "Every pair of catalogue operands (boxes, triangles, L, C, pentagon, holes, multi-polygons, island in hole; both windings) under every translation of the offset grid, in every receiver/argument type combination and all four operations, is executed; the result's even-odd region must contain exactly the lattice points the boolean combination contains and have exactly the true area; rings closed; empty only for zero true area.",
-  "Trusts mc/exact (integer predicates, float slab decomposition on exactly representable inputs). Shapes beyond the catalogue and degenerate (touching) pairs are outside; the latter by the property itself.", "4/C01"),
+  "Trusts mc/exact (integer predicates, float slab decomposition on exactly representable inputs). Shapes beyond the catalogue (which includes n-gons of 64..100 vertices, a U-shaped hole, mixed ring closure, flat-buffer operands and exact scalings by 2^-20 / 2^30) and degenerate (touching) pairs are outside; the latter by the property itself. Two classes of wrong results of the external sweep module are listed in known_findings.json.", "4/C01"),
  ("C02", MC, "E1",
   "bounded-exhaustive enumeration of all small-grid rings / two-ring polygons / two-member multi-polygons / boxes x the full half-integer query grid on the real Within vs an integer-arithmetic oracle; affine images for points with exactly verified margin",
   "Every ring of 3-4 vertices over {0..3}^2 (repeated vertices, self-intersections, closed and unclosed), every two-ring polygon and two-member multi-polygon over the 504 triangles of {0..2}^2, every box, at every half-integer grid point; the compound receivers over all short vertex lists. Exact because all coordinates are small (half-)integers.",
-  "Trusts the 30-line integer classifier in checks/c02. Larger rings and other coordinate values are outside the bound.", "4/C02"),
+  "Trusts the 30-line integer classifier in checks/c02. Also rings of 64..200 vertices, the aspect-ratio-1e9 lattice, exact scalings by 2^665 / 2^-665 and one polygon value rewritten in place; other coordinate values are outside the bound.", "4/C02"),
  ("C03", MC, "E1",
   "bounded-exhaustive enumeration of the full reversal x rotation x closing orbit of a catalogue of valid (multi-)polygons, and of all short line strings x query points, on the real code vs exact integer arithmetic",
   "For 7 shells x all valid hole subsets the complete orbit of every per-ring reversal, start rotation and closed/unclosed spelling is evaluated for Area, the alternately wound ones for Polygon.Centroid/op.Area/op.Centroid, every closed spelling for MultiPolygon.Centroid; all line strings of <= 4 points on a 3x3 grid x 49 query points for Length/Distance; Buffer over radius x segments x centre.",
-  "Trusts the integer shoelace/centroid sums in checks/c03; shapes with more than 8 vertices per ring and non-integer coordinates are outside the bound.", "4/C03"),
+  "Trusts the integer shoelace/centroid sums in checks/c03; also a 64-gon and a 100-gon with a hole, three affine images, an integer translation by 1e9, flat-buffer layouts and a value rewritten in place; other shapes are outside the bound.", "4/C03"),
  ("C04", MC, "E1",
   "bounded-exhaustive enumeration of structure trees x coordinate substitutions and of all box pairs/triples on the real code vs an independent traversal / interval algebra",
   "Every structure tree of the eight types within the stated member/length/depth bounds, with every single (quick) or single+double (thorough) substitution of -0/+Inf/-Inf, and every pair/triple of lattice boxes incl. the empty box is executed on the real package and compared with an independent reference; complete within the bound, silent beyond it.",
-  "Trusts the 40-line reference traversal and interval algebra in checks/c04; NaN and inverted boxes are outside the alphabet.", "4/C04"),
+  "Trusts the 40-line reference traversal and interval algebra in checks/c04; The box lattice includes the extended reals {-Inf,-0,1,+Inf}; NaN and inverted boxes are outside the alphabet.", "4/C04"),
  ("C05", MC, "E1",
   "bounded-exhaustive enumeration of structure trees x 64-bit pattern rotations x byte orders (per nested element on the decode side) on the real codec vs an independent OGC WKB serializer",
   "Every structure tree of the seven encodable types within the member/length/depth bounds, with every rotation of twelve 64-bit patterns (NaN payloads, signed zero, subnormals) in both byte orders, is encoded by the real code and compared byte for byte with an independent serializer; decoded back bit-exactly; every per-element byte-order assignment is decoded; hex in both letter cases.",
-  "Trusts mc/wkbref (independent 100-line serializer written from the OGC layout). Larger member counts and other bit patterns are outside the bound.", "4/C05"),
+  "Trusts mc/wkbref (independent 100-line serializer written from the OGC layout). Also members of up to 70000 vertices, 31..70000 members, collection chains 200 deep and call histories; other bit patterns are outside the bound.", "4/C05"),
  ("C06", MC, "E1",
   "bounded-exhaustive enumeration of structure trees x finite float patterns on the real GeoJSON codec vs an independent structural check of the JSON text",
   "Every tree of the six types (1..3 members, first non-empty) with every rotation of 19 finite float64 patterns is encoded, the text re-read with json.Number and checked for exact RFC 7946 nesting and [x,y] literals, and decoded back bit-exactly; every single non-finite substitution must be rejected.",
   "Trusts encoding/json's tokenizer for re-reading the text and strconv.ParseFloat.", "4/C06"),
  ("C13", MC, "E1",
   "bounded-exhaustive enumeration of all vertex sequences over a general-position point set x tolerances on the real Simplify in isolated workers (termination is part of the property) vs exact integer simplicity and distance oracles",
-  "Every vertex sequence of length 0..5 (thorough 0..6 over 16 points) over a point set with no three collinear points (verified exactly), repetitions allowed, x six tolerances is simplified by the real code in a worker with an address-space limit; termination, subsequence, endpoint, tolerance (existence of an embedding), exact simplicity preservation, input immutability and member independence are checked for every call.",
+  "Every vertex sequence of length 0..6 (thorough over 16 points), every injective sequence of length 7, scaled copies (1e-3, 1e-5, 2^80), a sliver set, a witness set for two-step back-offs and long lines of up to 1000 vertices over a point set with no three collinear points (verified exactly), repetitions allowed, x six tolerances is simplified by the real code in a worker with an address-space limit; termination, subsequence, endpoint, tolerance (existence of an embedding), exact simplicity preservation, input immutability and member independence are checked for every call.",
   "Trusts the integer segment-intersection test in checks/c13; a worker silent for 60 s or dead counts as non-termination of the announced case.", "4/C13"),
  ("C14", MC, "E1",
   "bounded-exhaustive enumeration of polygon catalogue x type casts x all simple 2-3-vertex polylines of an offset lattice (and two-member multi-line strings, and clip sequences on one shared polygon value) on the real Clip vs exact crossing parameters and even-odd classification",
@@ -39,7 +39,7 @@ checks = [
   "Trusts mc/exact predicates and float evaluation of crossing parameters on exactly representable inputs; pairs not in general position are skipped by an exact test.", "4/C14"),
  ("C15", MC, "E1",
   "bounded-exhaustive enumeration of derived geometry pairs (perturbation patterns, all member permutations, all ring rotations, every single displacement, deletion, duplication, reversal, type change) on the real Similar vs the truth table of the statement, both directions",
-  "For 19 base geometries of all eight types and two tolerances every derived geometry of the listed kinds is compared in both directions; the expected value follows from the statement alone.",
+  "For 29 base geometries of all eight types (slivers, duplicate members, 33..64 members, a self-touching ring), two tolerances and a far-from-origin copy with tolerance 1e-9 every derived geometry of the listed kinds is compared in both directions; the expected value follows from the statement alone.",
   "Catalogue members are >= 90 apart so matching is unambiguous; larger geometries are outside the bound.", "4/C15"),
  ("C16", MC, "E1",
   "bounded-exhaustive enumeration of record sequences x shapes x coordinate patterns x attribute edge values x both APIs, each written by the real Encoder and read back by the real Decoder",
